@@ -21,8 +21,10 @@ _r_quick = [inst("internal/container", "VHQueueRun", {"A": 10, "P": 2}, must_rea
             inst("internal/container", "VHQueueRun", {"A": 13, "P": 2}, must_reach=["run-end", "empty-panics"], workers=8)] + _q_calib
 _r_thor = [inst("internal/container", "VHQueueRun", {"A": 18, "P": 2}, must_reach=["run-end", "empty-panics"], workers=16),
            inst("internal/container", "VHQueueRun", {"A": 9, "P": 3}, must_reach=["run-end", "empty-panics"], workers=16)] + _q_calib
-_s_quick = [inst("internal/container", "VHStackStep", {"L": l, "S": s}, must_reach=["push", "size", "clear"]) for l in (0, 1, 2, 4) for s in (0, 1, 2)]
-_s_thor = [inst("internal/container", "VHStackStep", {"L": l, "S": s}, must_reach=["push", "size", "clear"]) for l in range(0, 9) for s in (0, 1, 2, 3)]
+_s_quick = [inst("internal/container", "VHStackStep", {"L": l, "S": s}, must_reach=["push", "size", "clear"]) for l in (0, 1, 2, 4) for s in (0, 1, 2)] + \
+           [inst("internal/container", "VHStackStep", {"L": l, "S": c - l}, must_reach=["push", "size", "clear"]) for (l, c) in ((0, 16), (1, 16), (4, 16), (5, 16), (8, 32), (9, 32))]  # short stacks in big arrays (after Clear or many pops)
+_s_thor = [inst("internal/container", "VHStackStep", {"L": l, "S": s}, must_reach=["push", "size", "clear"]) for l in range(0, 9) for s in (0, 1, 2, 3)] + \
+          [inst("internal/container", "VHStackStep", {"L": l, "S": c - l}, must_reach=["push", "size", "clear"]) for c in (8, 16, 17, 32, 64) for l in (0, 1, c // 4 - 1, c // 4, c // 4 + 1, c // 2, c - 1)]
 CHECKS["C20"] = dict(
     level="model_checking",
     claim="Bounded symbolic execution of the real Queue/Stack SSA: one operation from every state satisfying the representation invariant "
@@ -105,7 +107,7 @@ def _world(h, **params):
 _STEP_REACH = ["yield-line", "yield-options", "end", "fail", "pending", "jumped"]
 # VHRevisit: a runner that has not started (empty stack built by the harness, no last statement), all three nodes counted
 _REVISIT = dict(DEPTH=0, LAST=0, VISCFG=1, must_reach=["revisited", "run-bounded", "run-ended", "yield-options", "handler-args-evaluated", "pending", "fail"])
-_REVISIT_BAD = dict(DEPTH=0, LAST=0, VISCFG=1, BAD=1, BADMARKUP=1, must_reach=["revisited", "run-bounded", "fail"])
+_REVISIT_BAD = dict(DEPTH=0, LAST=0, VISCFG=1, BAD=1, BADMARKUP=1, BADARG=1, must_reach=["revisited", "run-bounded", "fail", "handler-args"])
 CHECKS["C01"] = dict(
     level="model_checking",
     claim="Inductive step on the real DialogueRunner.Next: from every runner state in the bounded state space (continuation stack of the listed "
@@ -158,9 +160,11 @@ CHECKS["C12"] = dict(
     note="The end states are those the real code produces from the state space, not hand-picked.",
     instances=dict(
         quick=[_world("VHEndAbsorbing", DEPTH=1, QLEN=2, BUDGET=1, VISCFG=1, must_reach=["ended"]),
-               _world("VHEndAbsorbing", DEPTH=2, QLEN=1, BUDGET=1, VISCFG=1, must_reach=["ended"])],
+               _world("VHEndAbsorbing", DEPTH=2, QLEN=1, BUDGET=1, VISCFG=1, must_reach=["ended"]),
+               _world("VHEndAbsorbing", DEPTH=2, QLEN=1, BUDGET=1, VISCFG=1, HEAD=6, STACKCAP=8, must_reach=["ended", "end-by-stop"])],
         thorough=[_world("VHEndAbsorbing", DEPTH=3, QLEN=2, BUDGET=1, VISCFG=1, workers=16, must_reach=["ended"]),
-                  _world("VHEndAbsorbing", DEPTH=1, QLEN=2, BUDGET=1, VISCFG=1, SECOND=1, workers=16, must_reach=["ended"])]),
+                  _world("VHEndAbsorbing", DEPTH=1, QLEN=2, BUDGET=1, VISCFG=1, SECOND=1, workers=16, must_reach=["ended"]),
+                  _world("VHEndAbsorbing", DEPTH=3, QLEN=2, BUDGET=1, VISCFG=1, STACKCAP=16, workers=16, must_reach=["ended", "end-by-stop"])]),
     assumptions=["as C01"],
 )
 _c06_b = [inst("root", "VHBuiltinsDomain", {"FN": f}, solver="cvc5", workers=2, must_reach=["called"]) for f in range(15)]
@@ -245,6 +249,7 @@ CHECKS["C10"] = dict(
         quick=[_world("VHCommandPoll", DEPTH=1, QLEN=1, CMDCHAN=1, VISCFG=1, must_reach=["has-channel", "polled", "error-surfaced", "resumed"]),
                _world("VHNextStep", DEPTH=1, QLEN=2, BUDGET=1, VISCFG=1, HEAD=6, must_reach=["pending", "handler-args", "fail", "end-by-stop"]),
                _world("VHRevisit", STEPS=5, BUDGET=1, HEAD=6, CMDV=1, DEPTH=0, LAST=0, VISCFG=1, must_reach=["revisited", "handler-args-evaluated", "pending"]),
+               _world("VHRevisit", STEPS=5, BUDGET=1, HEAD=6, **_REVISIT_BAD),
                inst("root", "VHWait", solver="cvc5", timeout_ms=300000, must_reach=["pending"])],
         thorough=[_world("VHCommandPoll", DEPTH=2, QLEN=2, CMDCHAN=1, workers=16, must_reach=["has-channel", "polled", "error-surfaced", "resumed"]),
                   _world("VHNextStep", DEPTH=2, QLEN=2, BUDGET=1, VISCFG=1, HEAD=6, must_reach=["pending", "handler-args", "fail", "end-by-stop"]),
@@ -270,11 +275,13 @@ CHECKS["C15"] = dict(
     instances=dict(
         quick=[_mk("VHMarkupTotal", N=n, ASCII=1, must_reach=["parsed", "error"]) for n in (1, 2, 3, 4, 5)] +
               [_mk("VHMarkupTotal", N=n, ASCII=0, must_reach=["parsed"]) for n in (1, 2, 3)] +
-              [_mk("VHMarkupAssembly", K=3, workers=12, must_reach=["parsed", "error", "attribute"])],
-        thorough=[_mk("VHMarkupTotal", N=n, ASCII=1, workers=16, must_reach=["parsed", "error"]) for n in (1, 2, 3, 4, 5, 6, 7)] +
+              [_mk("VHMarkupAssembly", K=3, workers=12, must_reach=["parsed", "error", "attribute"]),
+               _mk("VHMarkupHistory", H=1, workers=12, must_reach=["parsed", "error", "held-attribute"])],
+        thorough=[_mk("VHMarkupHistory", H=2, workers=16, must_reach=["parsed", "error", "held-attribute"])] +
+                 [_mk("VHMarkupTotal", N=n, ASCII=1, workers=16, must_reach=["parsed", "error"]) for n in (1, 2, 3, 4, 5, 6, 7)] +
                  [_mk("VHMarkupTotal", N=n, ASCII=0, workers=16, must_reach=["parsed"]) for n in (1, 2, 3, 4)] +
                  [_mk("VHMarkupAssembly", K=4, workers=16, must_reach=["parsed", "error", "attribute"])]),
-    assumptions=["fresh LineParser value (reuse is C14)",
+    assumptions=["fresh LineParser value (reuse is C14), except VHMarkupHistory: no panic and intact earlier results (TextForAttribute included) over histories of family lines",
                  "assembled lines: K fragments from a 21-element alphabet of marker pieces (brackets, slashes, =, quotes, escapes, a symbolic letter, "
                  "digit and byte >= 0x80, e-acute, whole open/close/self-closing/close-all and replacement markers)"],
 )
@@ -290,11 +297,11 @@ CHECKS["C14"] = dict(
     instances=dict(
         quick=[_mk("VHMarkupPure", N=n, ASCII=1, must_reach=["parsed", "error"]) for n in (2, 3, 4)] +
               [_mk("VHMarkupPure", N=5, ASCII=1, workers=12, must_reach=["parsed", "with-attributes"])] +
-              [_mk("VHMarkupHistory", H=1, workers=12, must_reach=["parsed", "error"])] +
+              [_mk("VHMarkupHistory", H=1, workers=12, must_reach=["parsed", "error", "held-attribute"])] +
               [inst("root", "VHRunnerMarkupPure", {"N1": 2, "N2": 3}, workers=8, must_reach=["parsed"])],
         thorough=[_mk("VHMarkupPure", N=n, ASCII=1, workers=16, must_reach=["parsed", "error"]) for n in (2, 3, 4, 5, 6)] +
                  [_mk("VHMarkupPure", N=n, ASCII=0, workers=16, must_reach=["parsed"]) for n in (2, 3, 4)] +
-                 [_mk("VHMarkupHistory", H=2, workers=16, must_reach=["parsed", "error"])] +
+                 [_mk("VHMarkupHistory", H=2, workers=16, must_reach=["parsed", "error", "held-attribute"])] +
                  [inst("root", "VHRunnerMarkupPure", {"N1": 3, "N2": 5}, workers=16, must_reach=["parsed", "with-attributes"])]),
     assumptions=[],
 )
@@ -334,19 +341,25 @@ CHECKS["C17"] = dict(
           "bytes from the token's alphabet (no > { CR LF) or an expression element, and compared with an independent byte loop: words are the "
           "maximal runs of non-whitespace (space, tab) of the concatenated adjacent chunks, true/false are booleans, -?digits(.digits)? are "
           "numbers equal to the literal, expressions keep their position, every other word is a string verbatim. Dispatch (handler reached once "
-          "with the arguments in order, <<stop>> never dispatched, unregistered name an error) is decided by the C01/C10 step harnesses.",
+          "with the arguments in order, <<stop>> never dispatched, unregistered name an error) is decided by the C01/C10 step harnesses and by runs "
+          "(VHRevisit with command heads, incl. a command whose argument fails to evaluate, followed by a well-formed command). Word-level chunks "
+          "(WORDS: up to 4 one-letter words per chunk) reach commands longer than the byte-level bound.",
     note="Which characters reach COMMAND_TEXT and whether a keyword-prefixed name (iffy, settings) is an ordinary command is decided by the ANTLR "
          "lexer: outside the claim. The numeric value of a literal is strconv's (exact for integer and d.dd literals).",
     instances=dict(
         quick=[inst("internal/tree", "VHCommandArgs", {"ITEMS": 1, "N": 4}, workers=8, must_reach=["rearranged", "boolean", "number", "string"]),
                inst("internal/tree", "VHCommandArgs", {"ITEMS": 2, "N": 3}, workers=8, must_reach=["rearranged", "expression", "number", "string"]),
                inst("internal/tree", "VHCommandArgs", {"ITEMS": 3, "N": 2}, workers=8, must_reach=["rearranged", "expression", "string"]),
+               inst("internal/tree", "VHCommandArgs", {"ITEMS": 3, "N": 1, "WORDS": 4}, workers=8, must_reach=["rearranged", "expression", "string", "word-chunk"]),
                _world("VHNextStep", DEPTH=1, QLEN=2, BUDGET=1, VISCFG=1, HEAD=6, must_reach=["handler-args", "fail", "end-by-stop"]),
+               _world("VHRevisit", STEPS=5, BUDGET=1, HEAD=6, **_REVISIT_BAD),
                inst("root", "VHCommandTwice", solver="cvc5", workers=2, must_reach=["twice"])],
         thorough=[inst("root", "VHCommandTwice", solver="cvc5", workers=2, must_reach=["twice"]),
                   inst("internal/tree", "VHCommandArgs", {"ITEMS": 1, "N": 5}, workers=16, must_reach=["rearranged", "boolean", "number", "string"]),
                   inst("internal/tree", "VHCommandArgs", {"ITEMS": 2, "N": 4}, workers=16, must_reach=["rearranged", "expression", "number", "string"]),
                   inst("internal/tree", "VHCommandArgs", {"ITEMS": 3, "N": 3}, workers=16, must_reach=["rearranged", "expression", "string"]),
+                  inst("internal/tree", "VHCommandArgs", {"ITEMS": 4, "N": 1, "WORDS": 4}, workers=16, must_reach=["rearranged", "expression", "string", "word-chunk"]),
+                  _world("VHRevisit", STEPS=8, BUDGET=1, HEAD=6, workers=16, **_REVISIT_BAD),
                   _world("VHNextStep", DEPTH=2, QLEN=2, BUDGET=1, VISCFG=1, HEAD=6, must_reach=["handler-args", "fail", "end-by-stop"])]),
     assumptions=["chunk bytes: anything but > { CR LF (the COMMAND_TEXT alphabet); adjacent text chunks do not occur (lexer contract)",
                  "Unicode whitespace other than space and tab (VT, FF, U+0085, U+00A0, U+1680, U+2000.., U+3000) is kept out of the alphabet: the "
@@ -396,9 +409,11 @@ CHECKS["C05"] = dict(
          "engine (returns an error, or a dialogue with >= 1 node); its recover() and error listener are exercised only by the native witnesses.",
     instances=dict(
         quick=[inst("root", "VHNewRunner", stubs=_STUB_FR, workers=4, must_reach=["created", "error", "several-nodes"])] +
-              [inst("internal/rng", "VHSeed", {"N": n}, workers=4, must_reach=["accepted"]) for n in (0, 1, 2, 3)] + _lexer_quick,
+              [inst("internal/rng", "VHSeed", {"N": n}, workers=4, must_reach=["accepted"]) for n in (0, 1, 2, 3)] + _lexer_quick +
+              [inst("internal/tree", "VHSyntaxErrors", workers=2, must_reach=["syntax-errors"])],
         thorough=[inst("root", "VHNewRunner", stubs=_STUB_FR, workers=4, must_reach=["created", "error", "several-nodes"])] +
-                 [inst("internal/rng", "VHSeed", {"N": n}, workers=16, must_reach=["accepted"]) for n in (0, 1, 2, 3, 4, 5)] + _lexer_thor),
+                 [inst("internal/rng", "VHSeed", {"N": n}, workers=16, must_reach=["accepted"]) for n in (0, 1, 2, 3, 4, 5)] + _lexer_thor +
+                 [inst("internal/tree", "VHSyntaxErrors", workers=2, must_reach=["syntax-errors"])]),
     assumptions=["FromReader's contract: an error, or a dialogue with at least one node"],
 )
 
@@ -435,10 +450,10 @@ CHECKS["C04"] = dict(
     note="Everything the ANTLR lexer decides is outside the claim: which characters survive lexing, backslash escapes, comments, where a hashtag "
          "starts, whitespace stripping of the source line. The digits of numbers are strconv's (non-integral numbers: finite set, native).",
     instances=dict(
-        quick=[inst("root", "VHLineRendering", {"ELEMS": 1}, workers=4, must_reach=["line"]),
-               inst("root", "VHLineRendering", {"ELEMS": 2}, workers=8, must_reach=["line"]),
+        quick=[inst("root", "VHLineRendering", {"ELEMS": 1}, workers=4, must_reach=["line", "fault-first"]),
+               inst("root", "VHLineRendering", {"ELEMS": 2}, workers=8, must_reach=["line", "fault-first"]),
                inst("root", "VHOptionRendering", {"OPTS": 2}, workers=8, must_reach=["options", "bad-condition"])],
-        thorough=[inst("root", "VHLineRendering", {"ELEMS": 3}, workers=16, must_reach=["line"]),
+        thorough=[inst("root", "VHLineRendering", {"ELEMS": 3}, workers=16, must_reach=["line", "fault-first"]),
                   inst("root", "VHOptionRendering", {"OPTS": 3}, workers=16, must_reach=["options", "bad-condition"])]),
     assumptions=["literal characters: printable ASCII except [ ] \\\\ : and space at the edges (markup-free, no trimming)", "integral numbers in [-255, 255]"],
 )
